@@ -13,7 +13,7 @@ func init() {
 	verifHarnesses["VerifHarness_C16"] = VerifHarness_C16
 }
 
-var c16Durations = []string{"", "0", "0s", "-5m", "abc", "5", "1s", "1m", "10m", "1h30m"}
+var c16Durations = []string{"", "0", "0s", "-5m", "abc", "5", "1s", "1m", "10m", "1h30m", "2h", "30m"} // ("2h" sorts before "30m" as text)
 
 func c16Dur(s string) (time.Duration, bool) {
 	d, err := time.ParseDuration(s)
